@@ -293,8 +293,11 @@ def render(t) -> str:
 
 
 def generate(repo: Path | None = None):
-    t = read_tables(repo)
-    txt = render(t)
+    try:
+        t = read_tables(repo)
+        txt = render(t)
+    except (Untranslatable, SyntaxError, OSError) as e:
+        t, txt = None, _stub("DriverFields", str(e))
     OUT.parent.mkdir(parents=True, exist_ok=True)
     if not OUT.exists() or OUT.read_text() != txt:
         OUT.write_text(txt)
@@ -305,3 +308,199 @@ if __name__ == "__main__":
     import json
 
     print(json.dumps(read_tables(), indent=1))
+
+
+# --------------------------------------------------------------------------------------------------
+# round 4: statement skeletons of the modelled methods and the option defaults of Optimizer.__init__
+# -> lean/Scico/Generated/DriverSource.lean
+
+OUT_SRC = common.LEAN_DIR / "Scico" / "Generated" / "DriverSource.lean"
+
+# (key used in the model, file, class or None, function)
+SKELETONS = [
+    ("Optimizer.solve", "scico/optimize/_common.py", "Optimizer", "solve"),
+    ("Optimizer.__init__", "scico/optimize/_common.py", "Optimizer", "__init__"),
+    ("itstat_func_and_object", "scico/optimize/_common.py", None, "itstat_func_and_object"),
+    ("_all_finite", "scico/optimize/_common.py", None, "_all_finite"),
+    ("Timer.__init__", "scico/util.py", "Timer", "__init__"),
+    ("Timer.start", "scico/util.py", "Timer", "start"),
+    ("Timer.stop", "scico/util.py", "Timer", "stop"),
+    ("Timer.reset", "scico/util.py", "Timer", "reset"),
+    ("Timer.elapsed", "scico/util.py", "Timer", "elapsed"),
+    ("Timer.labels", "scico/util.py", "Timer", "labels"),
+    ("Timer.__str__", "scico/util.py", "Timer", "__str__"),
+    ("ContextTimer.__init__", "scico/util.py", "ContextTimer", "__init__"),
+    ("ContextTimer.__enter__", "scico/util.py", "ContextTimer", "__enter__"),
+    ("ContextTimer.__exit__", "scico/util.py", "ContextTimer", "__exit__"),
+    ("ContextTimer.elapsed", "scico/util.py", "ContextTimer", "elapsed"),
+    ("IterationStats.insert", "scico/diagnostics.py", "IterationStats", "insert"),
+    ("IterationStats.end", "scico/diagnostics.py", "IterationStats", "end"),
+    ("IterationStats.history", "scico/diagnostics.py", "IterationStats", "history"),
+]
+
+
+def _skeleton(stmts, depth, out):
+    """normalised statement list: (nesting depth, text).  Docstrings and comments vanish, annotations of assignments
+    are dropped, a `raise` keeps the exception class only (messages are not part of the behaviour compared)."""
+    for st in stmts:
+        if isinstance(st, ast.Expr) and isinstance(st.value, ast.Constant) and isinstance(st.value.value, str):
+            continue  # docstring
+        if isinstance(st, ast.If):
+            node, kw = st, "if"
+            while True:
+                out.append((depth, f"{kw} {ast.unparse(node.test)}:"))
+                _skeleton(node.body, depth + 1, out)
+                if len(node.orelse) == 1 and isinstance(node.orelse[0], ast.If):
+                    node, kw = node.orelse[0], "elif"
+                    continue
+                if node.orelse:
+                    out.append((depth, "else:"))
+                    _skeleton(node.orelse, depth + 1, out)
+                break
+        elif isinstance(st, ast.For):
+            out.append((depth, f"for {ast.unparse(st.target)} in {ast.unparse(st.iter)}:"))
+            _skeleton(st.body, depth + 1, out)
+            if st.orelse:
+                out.append((depth, "else:"))
+                _skeleton(st.orelse, depth + 1, out)
+        elif isinstance(st, ast.While):
+            out.append((depth, f"while {ast.unparse(st.test)}:"))
+            _skeleton(st.body, depth + 1, out)
+        elif isinstance(st, ast.With):
+            out.append((depth, "with " + ", ".join(ast.unparse(i) for i in st.items) + ":"))
+            _skeleton(st.body, depth + 1, out)
+        elif isinstance(st, ast.Try):
+            out.append((depth, "try:"))
+            _skeleton(st.body, depth + 1, out)
+            for h in st.handlers:
+                out.append((depth, "except " + (ast.unparse(h.type) if h.type else "") + ":"))
+                _skeleton(h.body, depth + 1, out)
+            if st.finalbody:
+                out.append((depth, "finally:"))
+                _skeleton(st.finalbody, depth + 1, out)
+        elif isinstance(st, ast.Raise):
+            exc = st.exc
+            if isinstance(exc, ast.Call):
+                exc = exc.func
+            out.append((depth, "raise " + (ast.unparse(exc) if exc is not None else "")))
+        elif isinstance(st, ast.AnnAssign):
+            out.append((depth, f"{ast.unparse(st.target)} = {ast.unparse(st.value)}" if st.value is not None else ast.unparse(st.target)))
+        else:
+            out.append((depth, ast.unparse(st)))
+    return out
+
+
+def _find_function(tree, cname, fname):
+    body = tree.body
+    if cname is not None:
+        cls = [n for n in tree.body if isinstance(n, ast.ClassDef) and n.name == cname]
+        if not cls:
+            return None
+        body = cls[0].body
+    for n in body:
+        if isinstance(n, ast.FunctionDef) and n.name == fname:
+            return n
+    return None
+
+
+def _lit(node, where):
+    """option default as a typed literal for the model: ("int", n) | ("bool", b) | ("none",)"""
+    if isinstance(node, ast.Constant):
+        v = node.value
+        if v is None:
+            return ("none",)
+        if isinstance(v, bool):
+            return ("bool", v)
+        if isinstance(v, int):
+            return ("int", v)
+    raise Untranslatable(f"{where}: default {ast.unparse(node)} is not an int / bool / None literal")
+
+
+def read_source(repo: Path | None = None):
+    repo = Path(repo) if repo else common.REPO
+    trees = {}
+    out = {"skeletons": [], "pops": [], "signature": []}
+    for key, path, cname, fname in SKELETONS:
+        if path not in trees:
+            trees[path] = ast.parse((repo / path).read_text())
+        fn = _find_function(trees[path], cname, fname)
+        if fn is None:
+            raise Untranslatable(f"{path}: {key} not found")
+        out["skeletons"].append((key, _skeleton(fn.body, 0, [])))
+        # default values of the parameters (Timer / ContextTimer / IterationStats-independent: only what the model uses)
+        if key in ("Timer.__init__", "Timer.elapsed", "ContextTimer.__init__", "Timer.start", "Timer.stop", "Timer.reset", "Optimizer.solve"):
+            a = fn.args
+            names = [x.arg for x in a.args]
+            defaults = [None] * (len(names) - len(a.defaults)) + [ast.unparse(d) for d in a.defaults]
+            out["signature"].append((key, [(n, d if d is not None else "") for n, d in zip(names, defaults)]))
+    # kwargs.pop(name, default) in Optimizer.__init__, in source order
+    fn = _find_function(trees["scico/optimize/_common.py"], "Optimizer", "__init__")
+    for node in ast.walk(fn):
+        if (isinstance(node, ast.Call) and isinstance(node.func, ast.Attribute) and node.func.attr == "pop"
+                and isinstance(node.func.value, ast.Name) and node.func.value.id == "kwargs"):
+            if len(node.args) != 2 or not isinstance(node.args[0], ast.Constant):
+                raise Untranslatable("Optimizer.__init__: kwargs.pop without a literal name and a default")
+            out["pops"].append((node.lineno, node.args[0].value, _lit(node.args[1], "Optimizer.__init__")))
+    out["pops"] = [(n, v) for _, n, v in sorted(out["pops"])]
+    return out
+
+
+def _optval(v):
+    if v[0] == "none":
+        return "OptVal.none"
+    if v[0] == "bool":
+        return f"OptVal.bool {'true' if v[1] else 'false'}"
+    return f"OptVal.int ({v[1]})"
+
+
+def render_source(t) -> str:
+    out = [
+        "/- GENERATED by harness/driver_translate.py from scico/optimize/_common.py, scico/util.py, scico/diagnostics.py",
+        "   — rewritten on every run, do not edit. -/",
+        "import Scico.Model.Driver",
+        "",
+        "namespace Scico.Generated.DriverSource",
+        "open Scico.Driver",
+        "",
+        "/-- normalised statement lists (nesting depth, text) of the methods the model transcribes -/",
+        "def skeletons : List (String × List (Nat × String)) := [",
+    ]
+    rows = []
+    for key, sk in t["skeletons"]:
+        lines = ",\n    ".join(f"({d}, {_s(txt)})" for d, txt in sk)
+        rows.append(f"  ({_s(key)}, [\n    {lines}])")
+    out.append(",\n".join(rows))
+    out += ["]", "", "/-- parameters and default values of the signatures the model relies on -/",
+            "def signatures : List (String × List (String × String)) := ["]
+    out.append(",\n".join("  (" + _s(k) + ", [" + ", ".join(f"({_s(n)}, {_s(d)})" for n, d in ps) + "])" for k, ps in t["signature"]))
+    out += ["]", "", "/-- `kwargs.pop(name, default)` of `Optimizer.__init__`, in source order -/",
+            "def optionDefaults : List (String × OptVal) :=",
+            "  [" + ", ".join(f"({_s(n)}, {_optval(v)})" for n, v in t["pops"]) + "]", "",
+            "theorem skeletons_ok : skeletons = sourceSkeletons := by decide +kernel",
+            "theorem signatures_ok : signatures = sourceSignatures := by decide +kernel",
+            "theorem optionDefaults_ok : optionDefaults = Scico.Driver.optionDefaults := by decide +kernel",
+            "", "end Scico.Generated.DriverSource", ""]
+    return "\n".join(out)
+
+
+def _stub(module: str, why: str) -> str:
+    """a generated module whose obligation fails: the source no longer has the shape the translator understands
+    (a change the model does not follow) - reported as a broken obligation, not as an infrastructure failure"""
+    return "\n".join([
+        "/- GENERATED by harness/driver_translate.py - the source could not be translated:",
+        "   " + why.replace("-/", "- /"),
+        "-/",
+        f"namespace Scico.Generated.{module}",
+        "theorem source_has_the_translated_shape : (0 : Nat) = 1 := by decide",
+        f"end Scico.Generated.{module}", ""])
+
+
+def generate_source(repo: Path | None = None):
+    try:
+        t = read_source(repo)
+        txt = render_source(t)
+    except (Untranslatable, SyntaxError, OSError) as e:
+        t, txt = None, _stub("DriverSource", str(e))
+    if not OUT_SRC.exists() or OUT_SRC.read_text() != txt:
+        OUT_SRC.write_text(txt)
+    return t
